@@ -1,2 +1,52 @@
-(* C07 *)
-From Grex Require Import Base.Str.
+(* C07 — the library is total: building never panics, on any input and with any settings; the
+   only panics are the two documented ones of the threshold setters. *)
+From Grex Require Import Base.Str Model.Config Model.Builder Model.Cluster Model.Dfa Model.Expr
+  Model.Pipeline.
+From Grex Require Import Proofs.Lang Proofs.Construction Proofs.Wrappers Proofs.PropsGlue.
+From GrexGen Require Import SrcConsts SrcBuilder.
+
+(* build() always returns a regular expression *)
+Theorem C07_total : forall isd c db sc ws, exists s, build isd c db sc ws = Some s.
+Proof. exact build_total. Qed.
+
+(* every stage up to the expression is total: on well-formed clusters, hence on the clusters
+   of the pipeline *)
+Theorem C07_final_expr_total : forall c cls sc, Forall wf_cluster cls ->
+  exists e, Pipeline.final_expr c cls sc = Some e.
+Proof. exact final_expr_total. Qed.
+
+Theorem C07_final_expr_total_pipeline : forall c db tcs sc,
+  exists e, Pipeline.final_expr c (grapheme_clusters c db tcs) sc = Some e.
+Proof. exact final_expr_total_pipeline. Qed.
+
+(* the setters (generated from src/builder.rs): a setter panics iff it is a threshold setter
+   called with zero, and then with the documented message *)
+Theorem C07_documented_panics : forall s c msg,
+  apply_setter s c = inr msg <->
+  (s = with_minimum_repetitions 0%N /\ msg = msg_MINIMUM_REPETITIONS_MESSAGE)
+  \/ (s = with_minimum_substring_length 0%N /\ msg = msg_MINIMUM_SUBSTRING_LENGTH_MESSAGE).
+Proof. exact setter_panics. Qed.
+
+Theorem C07_positive_thresholds : forall q c, q <> 0%N ->
+  apply_setter (with_minimum_repetitions q) c = inl (set_min_rep q c)
+  /\ apply_setter (with_minimum_substring_length q) c = inl (set_min_len q c).
+Proof. exact setter_thresholds_ok. Qed.
+
+(* thresholds stay positive along any history of successful setter calls *)
+Theorem C07_thresholds_stay_positive : forall s c c',
+  apply_setter s c = inl c' ->
+  (min_rep c <> 0%N -> min_rep c' <> 0%N) /\ (min_len c <> 0%N -> min_len c' <> 0%N).
+Proof. exact setter_thresholds_pos. Qed.
+
+(* the expression is well formed *)
+Theorem C07_wf : forall c db sc ws e,
+  Pipeline.final_expr c (grapheme_clusters c db (normalise c db ws)) sc = Some e -> wf_expr e.
+Proof. exact construction_wf. Qed.
+
+Print Assumptions C07_total.
+Print Assumptions C07_final_expr_total.
+Print Assumptions C07_final_expr_total_pipeline.
+Print Assumptions C07_documented_panics.
+Print Assumptions C07_positive_thresholds.
+Print Assumptions C07_thresholds_stay_positive.
+Print Assumptions C07_wf.
